@@ -261,6 +261,8 @@ def run(tier):
         items.append((size, prog, "opt-" + placement, basic[1:]))
     for size, nat, inputs in gen_abisub.programs(tier):
         items.append((size, {"native": nat}, "abi-subs", inputs))
+    for size, nat, inputs in gen_abisub.argtype_programs(tier):
+        items.append((size, {"native": nat}, "abi-subs", inputs))
     for size, prog, inputs, lab in gen_ctrl.return_chains(4 if tier == "thorough" else 3):
         items.append((size, prog, "return-chain", inputs))
     for size, prog, inputs, lab in gen_ctrl.typed_chains(3 if tier == "quick" else 4):
